@@ -94,6 +94,8 @@ class SerializedWaiter(BaseModel):
     has_requirements: bool = Field(default=False)
     # Resolved event if available (serialized), None otherwise
     resolved_event: str | None = None
+    # True once the wait's timeout fired and the step has not yet consumed it
+    timed_out: bool = Field(default=False)
 
     @model_validator(mode="before")
     @classmethod
